@@ -608,3 +608,25 @@ def expand_locals(fn, expr, depth=4):
         if not changed[0]:
             break
     return e
+
+
+def lower_ifexp_assign(fn):
+    """copy of ``fn`` in which `x = a if c else b` is written as an if/else
+    statement (so that a path-sensitive flow sees the two cases)"""
+    fn = copy.deepcopy(fn)
+
+    class T(ast.NodeTransformer):
+        def visit_Assign(self, node):
+            if isinstance(node.value, ast.IfExp):
+                v = node.value
+                new = ast.If(
+                    v.test,
+                    [ast.Assign(copy.deepcopy(node.targets), v.body)],
+                    [ast.Assign(copy.deepcopy(node.targets), v.orelse)])
+                ast.copy_location(new, node)
+                for b in new.body + new.orelse:
+                    ast.copy_location(b, node)
+                ast.fix_missing_locations(new)
+                return new
+            return node
+    return T().visit(fn)
